@@ -187,6 +187,10 @@ func errClass(err error) string {
 		return ""
 	}
 	s := err.Error()
+	if strings.Contains(s, "SQLSTATE 23505") {
+		// e.g. inserting data: inserting blocks: ERROR: duplicate key value violates unique constraint "u_t1" (SQLSTATE 23505)
+		return "unique-violation"
+	}
 	if i := strings.Index(s, "(SQLSTATE"); i >= 0 {
 		// keep the SQLSTATE, drop the free text in front of it
 		s = strings.TrimSpace(s[:i]) + " " + s[i:]
